@@ -3,35 +3,35 @@
    output line: <sx>
    Decimal <-> extracted binary Z conversion uses zarith (glue only). *)
 module ZA = Z
-open Vlmodel
+module V = Vlmodel
 
-let rec pos_of_z (n : ZA.t) : positive =
-  if ZA.equal n ZA.one then XH
-  else if ZA.testbit n 0 then XI (pos_of_z (ZA.shift_right n 1))
-  else XO (pos_of_z (ZA.shift_right n 1))
+let rec pos_of_z (n : ZA.t) : V.positive =
+  if ZA.equal n ZA.one then V.XH
+  else if ZA.testbit n 0 then V.XI (pos_of_z (ZA.shift_right n 1))
+  else V.XO (pos_of_z (ZA.shift_right n 1))
 
-let z_of_zarith (n : ZA.t) : z =
+let z_of_zarith (n : ZA.t) : V.z =
   let s = ZA.sign n in
-  if s = 0 then Z0 else if s > 0 then Zpos (pos_of_z n) else Zneg (pos_of_z (ZA.neg n))
+  if s = 0 then V.Z0 else if s > 0 then V.Zpos (pos_of_z n) else V.Zneg (pos_of_z (ZA.neg n))
 
-let rec zarith_of_pos (p : positive) : ZA.t =
+let rec zarith_of_pos (p : V.positive) : ZA.t =
   (* iterative to avoid deep recursion on huge numbers *)
   let rec go p acc shift =
     match p with
-    | XH -> ZA.add acc (ZA.shift_left ZA.one shift)
-    | XO q -> go q acc (shift + 1)
-    | XI q -> go q (ZA.add acc (ZA.shift_left ZA.one shift)) (shift + 1)
+    | V.XH -> ZA.add acc (ZA.shift_left ZA.one shift)
+    | V.XO q -> go q acc (shift + 1)
+    | V.XI q -> go q (ZA.add acc (ZA.shift_left ZA.one shift)) (shift + 1)
   in go p ZA.zero 0
 
-let zarith_of_z (n : z) : ZA.t =
+let zarith_of_z (n : V.z) : ZA.t =
   match n with
-  | Z0 -> ZA.zero
-  | Zpos p -> zarith_of_pos p
-  | Zneg p -> ZA.neg (zarith_of_pos p)
+  | V.Z0 -> ZA.zero
+  | V.Zpos p -> zarith_of_pos p
+  | V.Zneg p -> ZA.neg (zarith_of_pos p)
 
 exception Parse of string
 
-let parse (s : string) (start : int) : sx * int =
+let parse (s : string) (start : int) : V.sx * int =
   let n = String.length s in
   let rec skip i = if i < n && (s.[i] = ' ' || s.[i] = '\t') then skip (i + 1) else i in
   let rec value i =
@@ -42,19 +42,19 @@ let parse (s : string) (start : int) : sx * int =
       let j = ref i in
       while !j < n && s.[!j] <> ' ' && s.[!j] <> '(' && s.[!j] <> ')' do incr j done;
       if !j = i then raise (Parse "empty token");
-      (A (z_of_zarith (ZA.of_string (String.sub s i (!j - i)))), !j)
+      (V.A (z_of_zarith (ZA.of_string (String.sub s i (!j - i)))), !j)
     end
   and items i acc =
     let i = skip i in
     if i >= n then raise (Parse "unclosed")
-    else if s.[i] = ')' then (L (List.rev acc), i + 1)
+    else if s.[i] = ')' then (V.L (List.rev acc), i + 1)
     else let (v, j) = value i in items j (v :: acc)
   in value start
 
-let rec print (b : Buffer.t) (v : sx) : unit =
+let rec print (b : Buffer.t) (v : V.sx) : unit =
   match v with
-  | A z -> Buffer.add_string b (ZA.to_string (zarith_of_z z))
-  | L l ->
+  | V.A z -> Buffer.add_string b (ZA.to_string (zarith_of_z z))
+  | V.L l ->
       Buffer.add_char b '(';
       List.iteri (fun i x -> if i > 0 then Buffer.add_char b ' '; print b x) l;
       Buffer.add_char b ')'
@@ -69,7 +69,7 @@ let () =
           let (u, i) = parse line 0 in
           let (a, _) = parse line i in
           (match u with
-           | A uz -> print b (dispatch uz a)
+           | V.A uz -> print b (V.dispatch uz a)
            | _ -> Buffer.add_string b "(3 unit)")
         with
         | Parse m -> Buffer.add_string b ("(3 parse " ^ m ^ ")")
